@@ -1,5 +1,6 @@
 import BS.Properties.C12
 import BS.Properties.C12b
+import BS.Properties.C12w
 #print axioms BS.History.consumer_congr
 #print axioms BS.History.step_inv
 #print axioms BS.History.history_refines
@@ -8,3 +9,9 @@ import BS.Properties.C12b
 #print axioms BS.Discard.inv_step
 #print axioms BS.Discard.discard_safe
 #print axioms BS.Discard.lost_first_unsafe
+#print axioms BS.WorkerTask.step_inv
+#print axioms BS.WorkerTask.reachable_inv
+#print axioms BS.WorkerTask.one_holder
+#print axioms BS.WorkerTask.ok_has_output
+#print axioms BS.WorkerTask.success_reply_has_output
+#print axioms BS.WorkerTask.lost_as_success_unsafe
